@@ -555,3 +555,39 @@ def run(ctx, chk):
     chk.floor("C12.R1", chk.instances.get("C12.R1", 0), 15, "awareness truth-table rows")
     r2(ctx, chk)
     r3(ctx, chk)
+    aware_value_untouched_rule(ctx, chk, "C12.R6")
+
+
+
+def aware_value_untouched_rule(ctx, chk, rule):
+    """`localize_timezone(dt, TIMEZONE)` says in which zone a NAIVE value is to be read; an aware value (an aware RELATIVE_BASE, a date whose
+    string named a zone) already says so itself and must come back as it went in - same instant AND same wall clock, since the relative
+    arithmetic ('1 month ago', 'yesterday at 10:30') is done on the wall clock of the base.  Every return that an aware argument can reach
+    returns the parameter itself."""
+    f = ctx.ix.func("dateparser.utils:localize_timezone")
+    p = f.params()[0]
+    g = CFG(f.node)
+    rets = [s for s in iter_own_stmts(f.node.body) if isinstance(s, ast.Return)]
+    chk.floor(rule, len(rets), 1, "returns of localize_timezone")
+    aware_seen = False
+    for r in rets:
+        facts = set()
+        for t, pol in enclosing_tests(f.node, r):
+            for a, q in conjuncts(t, pol):
+                txt = " ".join(ast.unparse(a).split())
+                if txt in (p + ".tzinfo", p + ".tzinfo is not None"):
+                    facts.add("aware" if q else "naive")
+                if txt in (p + ".tzinfo is None", "not " + p + ".tzinfo"):
+                    facts.add("naive" if q else "aware")
+        if "naive" in facts:
+            continue
+        aware_seen = aware_seen or "aware" in facts
+        at = next(iter(g.nodes_of(r)), None)
+        same = isinstance(r.value, ast.Name) and r.value.id == p and g.reaching_defs(p).get(at, set()) <= {g.entry.id}
+        chk.ob(rule, "localize_timezone line %d: an aware value is returned as it came" % r.lineno, same,
+               "an aware argument reaches `%s`: the value is re-expressed / rebuilt instead of handed back, so an aware RELATIVE_BASE is "
+               "no longer the base the relative arithmetic starts from" % " ".join(ast.unparse(r).split()),
+               key={"function": f.key, "construct": "aware passthrough"}, file=f.file, function=f.qual, line=r.lineno,
+               text=" ".join(ast.unparse(r).split()))
+    chk.ob(rule, "localize_timezone distinguishes aware from naive arguments", aware_seen, "no return is taken on `%s.tzinfo`" % p,
+           key={"function": f.key, "construct": "aware test"}, file=f.file, function=f.qual, line=f.node.lineno)
